@@ -27,6 +27,38 @@ int esp_write_buffer(int reg, const uint8_t *buffer, size_t buffer_length, void 
 static int n_trans;
 static uint8_t frame[4200];
 static size_t frame_len;
+static char frames_hex[3 * 4200];   // every transaction attempted in this call, hex, '|' separated
+static size_t frames_hex_len;
+static FILE *req_out, *ans_out;     // correspondence with the Lean model (Sx/Model/Backend.lean)
+
+static void note_frame(const uint8_t *f, size_t n) {
+  if (n_trans > 1 && frames_hex_len + 1 < sizeof frames_hex) frames_hex[frames_hex_len++] = '|';
+  for (size_t i = 0; i < n && frames_hex_len + 3 < sizeof frames_hex; i++)
+    frames_hex_len += (size_t) sprintf(frames_hex + frames_hex_len, "%02x", f[i]);
+  frames_hex[frames_hex_len] = 0;
+}
+static void hexout(FILE *f, const uint8_t *d, size_t n) {
+  if (n == 0) { fputc('-', f); return; }
+  for (size_t i = 0; i < n; i++) fprintf(f, "%02x", d[i]);
+}
+static int fail_code(int fail, int lin) { return fail ? (lin ? EIO : ESP_FAIL) : 0; }
+// one request and what the backend made of it, in the line format of `sxmodel`'s `bk` operation
+static void emit(const char *impl, const char *fn, int reg, size_t n, int fail, const uint8_t *hex, size_t hexn,
+                 int rc, int have_word, uint32_t word, const uint8_t *buf, size_t bufn) {
+  if (!req_out) return;
+  int lin = impl[0] == 'l';
+  fprintf(req_out, "bk %s %s %d %zu %d 0xa5 ", lin ? "lin" : "esp", fn, reg, n, fail_code(fail, lin));
+  hexout(req_out, hex, hexn);
+  fputc('\n', req_out);
+  fprintf(ans_out, "bk %s %s rc=%d frames=%s word=", lin ? "lin" : "esp", fn, rc, frames_hex);
+  if (have_word) fprintf(ans_out, "%08x", word); else fputc('-', ans_out);
+  fprintf(ans_out, " buf=");
+  int touched = 0;
+  for (size_t i = 0; i < bufn; i++) if (buf[i] != 0xee) touched = 1;
+  if (touched) hexout(ans_out, buf, bufn); else fputc('-', ans_out);
+  fputc('\n', ans_out);
+}
+#define RESET_CALL() do { n_trans = 0; frame_len = 0; frames_hex_len = 0; frames_hex[0] = 0; } while (0)
 static int fail_next;
 static uint8_t chip_answer[4200];   // bytes the chip shifts out after the address byte
 static unsigned violations, checks;
@@ -41,10 +73,11 @@ int sx_fake_ioctl(int fd, unsigned long request, void *arg) {
   (void) fd; (void) request;
   struct spi_ioc_transfer *tr = arg;
   n_trans++;
-  if (fail_next) { errno = EIO; return -1; }
   frame_len = tr->len;
   if (frame_len > sizeof frame) frame_len = sizeof frame;
   memcpy(frame, (const void *) (uintptr_t) tr->tx_buf, frame_len);
+  note_frame(frame, frame_len);
+  if (fail_next) { errno = EIO; return -1; }
   if (tr->rx_buf) {
     uint8_t *rx = (uint8_t *) (uintptr_t) tr->rx_buf;
     rx[0] = 0xa5;   // garbage clocked in while the address goes out
@@ -57,12 +90,13 @@ int sx_fake_ioctl(int fd, unsigned long request, void *arg) {
 esp_err_t spi_device_polling_transmit(spi_device_handle_t handle, spi_transaction_t *t) {
   (void) handle;
   n_trans++;
-  if (fail_next) return ESP_FAIL;
   size_t n = t->length / 8;
   frame[0] = (uint8_t) t->addr;
   frame_len = 1 + n;
   const uint8_t *tx = (t->flags & SPI_TRANS_USE_TXDATA) ? t->tx_data : (const uint8_t *) t->tx_buffer;
   for (size_t i = 0; i < n && i + 1 < sizeof frame; i++) frame[1 + i] = tx ? tx[i] : 0;
+  note_frame(frame, frame_len);
+  if (fail_next) return ESP_FAIL;
   uint8_t *rx = (t->flags & SPI_TRANS_USE_RXDATA) ? t->rx_data : (uint8_t *) t->rx_buffer;
   if (rx) for (size_t i = 0; i < t->rxlength / 8; i++) rx[i] = chip_answer[i];
   return ESP_OK;
@@ -90,10 +124,11 @@ static void test_backend(const backend_t *b) {
           for (size_t i = 0; i < 8; i++) data[i] = pattern == 0 ? (uint8_t) (0x11 * (i + 1)) : pattern == 1 ? (uint8_t) (0xf0 >> i) : rnd8();
           memcpy(chip_answer, data, 8);
           // read
-          n_trans = 0; frame_len = 0; fail_next = fail;
+          RESET_CALL(); fail_next = fail;
           uint32_t result = 0xdeadbeef;
           int rc = b->rr(reg, dev, n, &result);
           checks++;
+          emit(b->name, "rr", reg, n, fail, data, n > 8 ? 8 : n, rc, result != 0xdeadbeef, result, NULL, 0);
           if (n == 0 || n > 4) {
             if (rc == 0) BAD("%s read_registers reg=%02x len=%zu accepted", b->name, reg, n);
             if (n_trans) BAD("%s read_registers reg=%02x len=%zu issued a transaction", b->name, reg, n);
@@ -108,9 +143,10 @@ static void test_backend(const backend_t *b) {
             if (result != want) BAD("%s read_registers reg=%02x len=%zu: result %08x, bytes on the wire give %08x (MSB first)", b->name, reg, n, result, want);
           }
           // write
-          n_trans = 0; frame_len = 0; fail_next = fail;
+          RESET_CALL(); fail_next = fail;
           rc = b->wr(reg, data, n, dev);
           checks++;
+          emit(b->name, "wr", reg, n, fail, data, n, rc, 0, 0, NULL, 0);
           if (n == 0 || n > 4) {
             if (rc == 0) BAD("%s write_register reg=%02x len=%zu accepted", b->name, reg, n);
             if (n_trans) BAD("%s write_register reg=%02x len=%zu issued a transaction", b->name, reg, n);
@@ -131,11 +167,12 @@ static void test_backend(const backend_t *b) {
         if ((reg % 16) != 0 && n > 64) continue;   // the large lengths on a subset of addresses
         uint8_t *data = malloc(n + 1);
         uint8_t *got = malloc(n + 1);
-        for (size_t i = 0; i < n; i++) { data[i] = rnd8(); chip_answer[i] = data[i]; }
+        for (size_t i = 0; i < n; i++) { data[i] = rnd8(); if (data[i] == 0xee) data[i] = 0xed; chip_answer[i] = data[i]; }
         memset(got, 0xee, n + 1);
-        n_trans = 0; frame_len = 0; fail_next = fail;
+        RESET_CALL(); fail_next = fail;
         int rc = b->rb(reg, got, n, dev);
         checks++;
+        emit(b->name, "rb", reg, n, fail, data, n, rc, 0, 0, got, n);
         if (n == 2048 && b->guards_buffer) {
           if (rc == 0) BAD("%s read_buffer reg=%02x len=2048 accepted", b->name, reg);
           if (n_trans) BAD("%s read_buffer reg=%02x len=2048 issued a transaction", b->name, reg);
@@ -148,9 +185,10 @@ static void test_backend(const backend_t *b) {
           if (memcmp(got, data, n) != 0) BAD("%s read_buffer reg=%02x len=%zu: bytes returned differ from the wire", b->name, reg, n);
         }
         if (got[n] != 0xee) BAD("%s read_buffer reg=%02x len=%zu wrote past the caller's buffer", b->name, reg, n);
-        n_trans = 0; frame_len = 0; fail_next = fail;
+        RESET_CALL(); fail_next = fail;
         rc = b->wb(reg, data, n, dev);
         checks++;
+        emit(b->name, "wb", reg, n, fail, data, n, rc, 0, 0, NULL, 0);
         if (n == 2048 && b->guards_buffer) {
           if (rc == 0) BAD("%s write_buffer reg=%02x len=2048 accepted", b->name, reg);
           if (n_trans) BAD("%s write_buffer reg=%02x len=2048 issued a transaction", b->name, reg);
@@ -169,11 +207,13 @@ static void test_backend(const backend_t *b) {
   }
 }
 
-int main(void) {
+int main(int argc, char **argv) {
+  if (argc > 2) { req_out = fopen(argv[1], "w"); ans_out = fopen(argv[2], "w"); }
   backend_t lin = {"linux", lin_read_registers, lin_read_buffer, lin_write_register, lin_write_buffer, 1};
   backend_t esp = {"esp", esp_read_registers, esp_read_buffer, esp_write_register, esp_write_buffer, 0};
   test_backend(&lin);
   test_backend(&esp);
+  if (req_out) { fclose(req_out); fclose(ans_out); }
   printf("backends checks=%u violations=%u\n", checks, violations);
   return violations ? 1 : 0;
 }
